@@ -181,7 +181,7 @@ struct RtWorld : World {
                         case 3: { const char *as = rtosc_argument_string(lastmsg); (void)as; unsigned n = rtosc_narguments(lastmsg); for (unsigned i = 0; i < n; i++) { (void)rtosc_type(lastmsg, i); (void)rtosc_argument(lastmsg, i); }
                             rtosc_arg_itr_t it = rtosc_itr_begin(lastmsg); while (!rtosc_itr_end(it)) (void)rtosc_itr_next(&it); probes[P_ITER]++; break; }
                         case 4: { static const char *pat[] = {"seed:ifs", "se#4d", "ch#16/gain:i", "{seed,need}/", "app/", "*"}; for (auto pp : pat) (void)rtosc_match(pp, lastmsg + 1, nullptr); probes[P_MATCH]++; break; }
-                        case 5: { size_t bl = rtosc_bundle(buf, sizeof buf, 0x1122334455667788ull, 2, m1, m2); (void)rtosc_bundle(buf + 300, 10, 1, 1, m1); if (bl) { (void)rtosc_bundle_p(buf); size_t e = rtosc_bundle_elements(buf, bl); for (size_t i = 0; i < e; i++) { (void)rtosc_bundle_fetch(buf, (unsigned)i); (void)rtosc_bundle_size(buf, (unsigned)i); } (void)rtosc_bundle_timetag(buf); (void)rtosc_message_length(buf, bl); } probes[P_BUNDLE]++; break; }
+                        case 5: { size_t bl = rtosc_bundle(buf, sizeof buf, 0x1122334455667788ull, 2, m1, m2); (void)rtosc_bundle(buf + 300, 10, 1, 1, m1); /* many elements (a small fixed array inside the builder must not give way to the heap), also refused */ { static char big[1024]; int ne = 9 + (int)(op.a[1] & 7); const char *e[16]; for (int q = 0; q < 16; q++) e[q] = (q & 1) ? m2 : m1; (void)rtosc_bundle(big, sizeof big, 7, ne, e[0], e[1], e[2], e[3], e[4], e[5], e[6], e[7], e[8], e[9], e[10], e[11], e[12], e[13], e[14], e[15]); (void)rtosc_bundle(big, 40, 7, ne, e[0], e[1], e[2], e[3], e[4], e[5], e[6], e[7], e[8], e[9], e[10], e[11], e[12], e[13], e[14], e[15]); size_t be = rtosc_bundle_elements(big, sizeof big); (void)be; } if (bl) { (void)rtosc_bundle_p(buf); size_t e = rtosc_bundle_elements(buf, bl); for (size_t i = 0; i < e; i++) { (void)rtosc_bundle_fetch(buf, (unsigned)i); (void)rtosc_bundle_size(buf, (unsigned)i); } (void)rtosc_bundle_timetag(buf); (void)rtosc_message_length(buf, bl); } probes[P_BUNDLE]++; break; }
                         case 6: { priv->write("/p", "is", 1, "abc"); priv->writeArray("/q", "", nullptr); priv->raw_write(m1); while (priv->hasNextLookahead()) priv->read_lookahead(); while (priv->hasNext()) priv->read(); (void)priv->peak(); probes[P_LINK]++; break; }
                         case 7: { RtOut dd(b2u, true); dd.obj = rig; dd.reply("/direct", "is", 1, "r"); dd.reply("/direct/many", "iiiiiiiiiiiiiiiiiii", 1,2,3,4,5,6,7,8,9,10,11,12,13,14,15,16,17,18,19); dd.broadcast("/direct/many", "ffffffffffffffffffff", 1.,2.,3.,4.,5.,6.,7.,8.,9.,10.,11.,12.,13.,14.,15.,16.,17.,18.,19.,20.); dd.broadcast("/direct", "f", 1.0); dd.reply("/huge", "s", g_big); break; }
                         }
